@@ -281,6 +281,32 @@ def check_case(c):
                             return Result(False, "C36.after_others.targets_union", "%s after %s: targets.lst lacks %s / holds undescribed %s" % (
                                 cmd[1:], c["others"], mi[:4], ex[:4]))
                 classes.append("after_others.%d" % len(c["others"]))
+        # the same inputs in ONE mfront process ("previous runs" inside a process): what is generated for an input
+        # must not depend on the inputs treated before it.  Only inputs of the same kind (they share the interfaces);
+        # when the group is refused as a whole (library conflicts, an interface one of the others does not support)
+        # nothing is concluded
+        same = [o for o in c["others"] if kind_of(o) == kind_of(rel) and o != rel]
+        if ok_base and same:
+            t4, d4 = newdir("multi")
+            tops.append(t4)
+            cmd2 = cmd[:-1] + ["--search-path=" + os.path.dirname(os.path.join(REPO, o)) for o in same] + \
+                [os.path.join(REPO, o) for o in same] + cmd[-1:]
+            rc, so, se = prun(cmd2, cwd=d4, env=dict(base_env()), timeout=900)
+            if rc != 0:
+                classes.append("same_process.refused")
+            else:
+                mine = [n for n in b["tree"] if n != os.path.join("src", "targets.lst")]
+                df = tree_diff(b["tree"], tree(d4), b["dir"], d4, only=mine)
+                if df:
+                    # a file that another input of the group also generates (same name) is not attributable
+                    solo = set()
+                    for o in same:
+                        solo |= set(baseline(o, ifaces, opts)["tree"])
+                    df = tree_diff(b["tree"], tree(d4), b["dir"], d4, only=[n for n in mine if n not in solo])
+                if df:
+                    return Result(False, "C36.same_process.differs", "%s: generated together with %s in one process: %s" % (
+                        cmd[1:], same, df[:4]))
+                classes.append("same_process.%d" % len(same))
         src = open(os.path.join(REPO, rel), errors="replace").read()
         nfiles = len(b["tree"])
         nt = ok_base and (nfiles >= 5 or re.search(r"@(Import|MaterialLaw|Model)\b", src) is not None)
